@@ -134,7 +134,7 @@ def hints(case):
 
 def tolerances(cond):
     eps = 1e-12 + 64 * EPS * cond       # residual of the oracle hypothesis
-    rtol = 1e-9 + 256 * EPS * cond      # entrywise relative tolerance on the rigidities
+    rtol = 1e-10 + 32 * EPS * cond     # entrywise relative tolerance on the rigidities
     return eps, rtol
 
 
@@ -151,7 +151,7 @@ def case_coq(i, case, rec, h):
     gated = "true" if h["rank_near_threshold"] else "false"
     d = len(case["train"][0][0])
     if case["rank_only"]:
-        v = "(%s || Nat.eqb (rank_diff_model %d%%nat %s) %d%%nat)" % (gated, d, C.flist(h["sv"]), rec["rank_diff"])
+        v = "rank_case_ok %s %s %d%%nat %s" % (name, C.flist(h["sv"]), rec["rank_diff"], gated)
     elif case["kind"] == "lpr":
         v = "lpr_case_ok %s %s %s %s %s %d%%nat %s" % (
             name, C.flist(h["sv"]), C.fl(eps), C.fl(rtol), C.fmat(rec["lpr"]), rec["rank_diff"], gated)
@@ -256,7 +256,7 @@ def shape_key(case):
 # ---------------------------------------------------------------- run
 def run(ctx):
     po = C.proof_obligations(ctx.prop)
-    ncases = 360 if ctx.quick else 6000
+    ncases = 600 if ctx.quick else 8000
     cases, recs, hs = [], [], []
     stats = dict(kinds={}, families={}, d_hist={}, single_env_structs=0, one_component=0,
                  rank_only=0, rank_diff_positive=0, rank_gated=0, errors=0,
@@ -356,7 +356,7 @@ def run(ctx):
                theorems=po["theorems"], axioms=po["axioms"],
                trusted_base=C.TRUSTED_BASE_COMMON + [
                    "numpy.linalg.inv / svd as oracles (hints); hypothesis residual re-evaluated in Coq on the model's matrix",
-                   "binary64 rounding: agreement within rtol = 1e-9 + 256*eps*cond entrywise"],
+                   "binary64 rounding: agreement within rtol = 1e-10 + 32*eps*cond entrywise (cond = condition number of XX + alpha I)"],
                evaluations=len(cases), distinct_nontrivial=nontrivial,
                rule="distinct (shape, alpha) with >=2 training structures, a multi-environment structure in "
                     "train and test, and >=2 components for the component-wise call",
